@@ -85,7 +85,8 @@ impl ASpec {
             ASpec::Software(s) => dec!(Software, |v| v.software() == s),
             ASpec::AltDomain(s) => dec!(AlternateDomain, |v| v.domain() == s),
             ASpec::ErrorCode(c, r) => dec!(ErrorCode, |v| v.code() == *c && v.reason() == r),
-            ASpec::UnknownAttrs(l) => dec!(UnknownAttributes, |v| l.iter().all(|&t| v.has_attribute(t.into())) && v.length() as usize == 2 * l.len()),
+            ASpec::UnknownAttrs(l) => dec!(UnknownAttributes, |v| l.iter().all(|&t| v.has_attribute(t.into())) && v.length() as usize == 2 * l.len()
+                && v.to_raw().value.to_vec() == l.iter().flat_map(|t| t.to_be_bytes()).collect::<Vec<u8>>()),
             ASpec::PwAlgos(l) => dec!(PasswordAlgorithms, |v| v.algorithms().len() == l.len() && v.algorithms().iter().zip(l).all(|(a, b)| (*a == PasswordAlgorithmValue::MD5) == (*b == 1))),
             ASpec::PwAlgo(a) => dec!(PasswordAlgorithm, |v| (v.algorithm() == PasswordAlgorithmValue::MD5) == (*a == 1)),
             ASpec::Priority(p) => dec!(Priority, |v| v.priority() == *p),
@@ -133,7 +134,13 @@ pub fn gen_spec(rng: &mut Rng, tid: u128) -> ASpec {
         3 => ASpec::Software(gen_str(rng, 763)),
         4 => ASpec::AltDomain(gen_str(rng, 763)),
         5 => ASpec::ErrorCode(*rng.pick(&[300u16, 301, 399, 400, 420, 438, 499, 500, 600, 699]), gen_str(rng, 763)),
-        6 => { let n = rng.below(6) as usize; ASpec::UnknownAttrs((0..n).map(|i| 0x1000 + i as u16 * 7 + (rng.next() as u16 & 0x8000)).collect()) }
+        6 => {
+            // lists of 0..=5 types; every third list repeats a type (the wire list may hold duplicates: the decoder must expose them all)
+            let n = rng.below(6) as usize;
+            let mut l: Vec<u16> = (0..n).map(|i| 0x1000 + i as u16 * 7 + (rng.next() as u16 & 0x8000)).collect();
+            if n >= 2 && rng.below(3) == 0 { let k = rng.below(n as u64 - 1) as usize; l[n - 1] = l[k]; }
+            ASpec::UnknownAttrs(l)
+        }
         7 => { let n = rng.range(1, 4) as usize; ASpec::PwAlgos((0..n).map(|_| rng.range(1, 2) as u8).collect()) }
         8 => ASpec::PwAlgo(rng.range(1, 2) as u8),
         9 => ASpec::Priority(rng.next() as u32),
